@@ -25,6 +25,39 @@ from harness.dalvik_interp import Machine
 
 CORPUS = os.path.join(VERIF, "corpus", "C21")
 
+# the functions the Lean model transliterates by hand (changed AST -> escalated search, never a verdict)
+PINS = [
+    ("androguard/decompiler/writer.py", "Writer.visit_cond_expression"),
+    ("androguard/decompiler/writer.py", "Writer.visit_condz_expression"),
+    ("androguard/decompiler/writer.py", "Writer.visit_constant"),
+    ("androguard/decompiler/writer.py", "Writer.visit_binary_expression"),
+    ("androguard/decompiler/writer.py", "Writer.visit_unary_expression"),
+    ("androguard/decompiler/writer.py", "Writer.visit_cast"),
+    ("androguard/decompiler/writer.py", "Writer.visit_long_compare"),
+    ("androguard/decompiler/writer.py", "Writer.visit_variable"),
+    ("androguard/decompiler/writer.py", "Writer.visit_param"),
+    ("androguard/decompiler/writer.py", "Writer.write_inplace_if_possible"),
+    ("androguard/decompiler/writer.py", "Writer.visit_assign"),
+    ("androguard/decompiler/instruction.py", "Constant.visit"),
+    ("androguard/decompiler/instruction.py", "BinaryExpression.visit"),
+    ("androguard/decompiler/instruction.py", "BinaryCompExpression.visit"),
+    ("androguard/decompiler/instruction.py", "UnaryExpression.visit"),
+    ("androguard/decompiler/instruction.py", "CastExpression.visit"),
+    ("androguard/decompiler/instruction.py", "ConditionalExpression.visit"),
+    ("androguard/decompiler/instruction.py", "ConditionalExpression.neg"),
+    ("androguard/decompiler/instruction.py", "ConditionalZExpression.visit"),
+    ("androguard/decompiler/opcode_ins.py", "Op"),
+    ("androguard/decompiler/opcode_ins.py", "assign_const"),
+    ("androguard/decompiler/opcode_ins.py", "assign_cmp"),
+    ("androguard/decompiler/opcode_ins.py", "assign_cast_exp"),
+    ("androguard/decompiler/opcode_ins.py", "assign_binary_exp"),
+    ("androguard/decompiler/opcode_ins.py", "assign_binary_2addr_exp"),
+    ("androguard/decompiler/opcode_ins.py", "assign_lit"),
+    ("androguard/decompiler/opcode_ins.py", "rsubint"),
+    ("androguard/decompiler/opcode_ins.py", "rsubintlit8"),
+    ("androguard/decompiler/opcode_ins.py", "addintlit8"),
+]
+
 # ---------------------------------------------------------------------------------------------- known findings
 MARKER = "Both branches of the condition point to the same"
 NARROW = ("byte", "short", "char")
@@ -294,6 +327,184 @@ def _dalvik_single(mn, kind, dst, srcs, lit, regs):
     return "%s%d" % (dst, r[1])
 
 
+def java_eval(workdir, stem, exprs, per_class=3000):
+    """exprs: [(declarations, expression text)].  Each expression is compiled by javac into its own static method and run
+    on the JVM; the static type of the result is observed through overload resolution.  Returns one outcome per
+    expression: I<value> | J<value> | taken | not-taken | AE | rejected (javac does not accept the text)."""
+    out = ["?"] * len(exprs)
+    for c0 in range(0, len(exprs), per_class):
+        cls = "%s%d" % (stem, c0 // per_class)
+        idx = list(range(c0, min(c0 + per_class, len(exprs))))
+        head = ["public class %s {" % cls,
+                "  static String show(int x) { return \"I\" + x; }",
+                "  static String show(long x) { return \"J\" + x; }",
+                "  static String show(boolean x) { return x ? \"taken\" : \"not-taken\"; }"]
+        body = {}
+        for i in idx:
+            body[i] = ("  static String e%d() { %s try { return show(%s); } catch (ArithmeticException x) { return \"AE\"; } }"
+                       % (i, exprs[i][0], exprs[i][1].replace("\n", " ")))
+        tail = []
+        step = 300
+        for b in range(0, len(idx), step):
+            tail.append("  static void run%d(StringBuilder sb) {" % (b // step))
+            for i in idx[b:b + step]:
+                tail.append("    sb.append(\"%d \").append(e%d()).append('\\n');" % (i, i))
+            tail.append("  }")
+        tail.append("  public static void main(String[] a) { StringBuilder sb = new StringBuilder();")
+        for b in range(0, len(idx), step):
+            tail.append("    run%d(sb);" % (b // step))
+        tail += ["    System.out.print(sb); }", "}"]
+        path = os.path.join(workdir, cls + ".java")
+        for _round in range(6):
+            lines = head + [body[i] for i in idx] + tail
+            with open(path, "w") as f:
+                f.write("\n".join(lines) + "\n")
+            p = subprocess.run(["javac", "-nowarn", "-Xmaxerrs", "100000", "-d", workdir, path], capture_output=True, text=True, timeout=900)
+            if p.returncode == 0:
+                break
+            bad = set()
+            for mm in re.finditer(re.escape(cls) + r"\.java:(\d+): error:", p.stderr):
+                k = int(mm.group(1)) - len(head) - 1
+                if 0 <= k < len(idx):
+                    bad.add(idx[k])
+            if not bad:
+                raise ToolFailure("javac failed on the expression bench: " + p.stderr[-500:])
+            for i in bad:
+                out[i] = "rejected"
+                body[i] = "  static String e%d() { return \"rejected\"; }" % i
+        else:
+            raise ToolFailure("javac keeps failing on the expression bench")
+        p = subprocess.run(["java", "-cp", workdir, cls], capture_output=True, text=True, timeout=900)
+        if p.returncode != 0:
+            raise ToolFailure("java failed on the expression bench: " + p.stderr[-500:])
+        for line in p.stdout.split("\n"):
+            if line:
+                i, v = line.split(" ", 1)
+                out[int(i)] = v
+    return out
+
+
+def _wrap(v, bits):
+    v &= (1 << bits) - 1
+    return v - (1 << bits) if v >> (bits - 1) else v
+
+
+_OPN = {"+": "add", "-": "sub", "*": "mul", "/": "div", "%": "rem", "&": "and", "|": "or", "^": "xor", "<<": "shl", ">>": "shr",
+        ">>>": "ushr"}
+_REL = {"==": lambda a, b: a == b, "!=": lambda a, b: a != b, "<": lambda a, b: a < b, ">=": lambda a, b: a >= b,
+        ">": lambda a, b: a > b, "<=": lambda a, b: a <= b}
+
+
+def _ctx_oracle(spec, c, i1, l1):
+    """what the context means (independent of the model): the operation on v1 and the constant c"""
+    from harness.dalvik_interp import _bin, Arith
+    family, op, aux = spec
+    try:
+        if family == "ibin":
+            a, b = (i1, c) if aux == "r" else (c, i1)
+            return "I%d" % _wrap(_bin(_OPN[op], a, b, 32), 32)
+        if family in ("jbin", "jshift"):
+            return "J%d" % _wrap(_bin(_OPN[op], l1, c, 64), 64)
+    except Arith:
+        return "AE"
+    if family in ("cond", "condcast"):
+        t = aux if family == "cond" else "C"
+        x = {"I": i1, "C": i1 & 0xFFFF, "B": _wrap(i1, 8), "S": _wrap(i1, 16)}[t]
+        return "taken" if _REL[op](x, c) else "not-taken"
+    if family == "condl":
+        return "taken" if _REL[op](c, i1) else "not-taken"
+    if family == "const":
+        return "%s%d" % (aux, c)
+    if family == "un":
+        bits = 32 if aux == "I" else 64
+        return "%s%d" % (aux, _wrap(-c if op == "-" else ~c, bits))
+    if family == "cast":
+        return {"(long)": "J%d" % c, "(int)": "I%d" % _wrap(c, 32), "(byte)": "I%d" % _wrap(c, 8),
+                "(short)": "I%d" % _wrap(c, 16), "(char)": "I%d" % (c & 0xFFFF)}[op]
+    raise ValueError(spec)
+
+
+def leg_t_contexts(ck: Check, drv: Driver, workdir, full, escalated=False):
+    """how a Constant operand is printed in every expression context: real Writer text vs model text, and the text run by
+    javac+JVM vs (a) the model's JLS outcome (b) an independent oracle.  Every context sees ALL constants 0..127 (every
+    printable ASCII code) on every run."""
+    import importlib
+    gt = importlib.import_module("gen.translate")
+    dex, oi, ir, wr = gt._load(REPO)
+    rng = random.Random("C21-ctx/%d" % ck.seed)
+    reqs, real_text, exprs, oracle, meta = [], [], [], [], []
+    for spec in gt.context_specs():
+        is_long = gt.context_is_long(spec)
+        pool = gt.CTX_J if is_long else gt.CTX_I
+        if full:
+            consts = list(pool)
+        elif escalated:
+            consts = list(range(0, 128)) + [v for v in pool if not 0 <= v < 128][ck.seed % 3::3] + [v for v in pool if abs(v) >= 32767]
+        else:
+            extra = [v for v in pool if not 0 <= v < 128]
+            if spec[0] in ("cond", "condcast", "condl"):
+                # every code 0..127 once per run and operand type, spread over the six operators
+                k0 = gt.REL_OPS.index(spec[1])
+                small = [k for k in range(128) if (k + ck.seed) % 6 == k0] + [39, 92]
+            else:
+                small = list(range(ck.seed % 4, 128, 4)) + [39, 92]
+            consts = small + extra[ck.seed % 10::10] + [v for v in pool if abs(v) >= 32767]
+        consts = list(dict.fromkeys(consts))
+        family, op, aux = spec
+        for c in consts:
+            i1 = rng.choice((c, c, rng.choice(javagen.I_BOUND), rng.randrange(-2 ** 31, 2 ** 31), (c & 0xFFFF) if -2 ** 31 <= c < 2 ** 31 else 0))
+            if not -2 ** 31 <= i1 < 2 ** 31:
+                i1 = _wrap(i1, 32)
+            l1 = rng.choice((c, rng.choice(javagen.J_BOUND), rng.randrange(-2 ** 63, 2 ** 63)))
+            try:
+                text = gt.context_text(ir, wr, spec, c)
+            except Exception as e:  # noqa
+                text = "other:" + type(e).__name__
+            vt = {"ibin": "I", "jbin": "J", "jshift": "J", "cond": aux, "condcast": "I", "condl": "I"}.get(family)
+            decl = ""
+            if vt == "J":
+                decl = "long v1 = %s;" % javagen.java_literal(l1, "J")
+            elif vt == "I":
+                decl = "int v1 = %s;" % javagen.java_literal(i1, "I")
+            elif vt in ("C", "B", "S"):
+                decl = "%s v1 = (%s) %s;" % ({"C": "char", "B": "byte", "S": "short"}[vt], {"C": "char", "B": "byte", "S": "short"}[vt],
+                                           javagen.java_literal(i1, "I"))
+            reqs.append("ctx %s %s %s %d %d %d" % (family, op or "_", aux, c, i1, l1))
+            real_text.append(text)
+            exprs.append((decl, text))
+            oracle.append(_ctx_oracle(spec, c, i1, l1))
+            meta.append((spec, c, i1, l1))
+    model = drv.ask(reqs)
+    java = java_eval(workdir, "CX", exprs)
+    real = ["text=%s | java=%s" % (real_text[i], java[i]) for i in range(len(reqs))]
+    ck.compare("writer contexts text/java", reqs, real, model)
+    for i, (spec, c, i1, l1) in enumerate(meta):
+        if java[i] != oracle[i]:
+            ck.fail({"kind": "context", "family": spec[0], "op": spec[1], "aux": spec[2], "constant": c, "v1_int": i1, "v1_long": l1},
+                    "a constant operand is printed so that the expression is rejected by javac or denotes another value",
+                    None, expected=oracle[i], observed={"text": real_text[i], "java": java[i]})
+    ck.cover(evaluations=len(reqs), distinct=((m[0], m[1]) for m in meta),
+             samples=[{"request": reqs[i], "real": real[i]} for i in (92, len(reqs) // 2)],
+             dist={"context_samples": len(reqs), "contexts": len(gt.context_specs()),
+                   "context_constants_0_127_each": True})
+
+
+def ascii_sweep_methods():
+    """every printable ASCII code (and 0..31, 127) once as the constant of a char-typed and of an int comparison, and of an
+    arithmetic instruction, in a real method that goes through the whole decompiler"""
+    ms = []
+    ops = javagen.CONDS
+    for k in range(0, 128):
+        c = ops[k % 6]
+        # p in v3; v0 = (char) p; v1 = k; if v0 <c> v1 -> 1 else 0, plus an int comparison and an addition with the same constant
+        items = [("int-to-char", 0, 3), ("const/16", 1, k), ("if-" + c, 0, 1, "A"), ("const/4", 2, 0), ("goto", "B"),
+                 "A:", ("const/4", 2, 1), "B:", ("if-" + ops[(k + 1) % 6], 3, 1, "C"), ("add-int/lit8", 2, 2, 2), "C:",
+                 ("add-int", 0, 3, 1), ("xor-int/2addr", 2, 0), ("return", 2)]
+        ms.append({"name": "a%d" % k, "ret": "I", "params": ["I"], "registers": 4, "ins": 1, "items": items,
+                   "features": ["ascii-sweep", "if", "int-to-char", "if-" + c], "level": 1})
+    return ms
+
+
 def leg_t(ck: Check, drv: Driver, workdir):
     import importlib
     gt = importlib.import_module("gen.translate")
@@ -342,60 +553,14 @@ def leg_t(ck: Check, drv: Driver, workdir):
         except Exception as e:  # noqa
             texts.append("other:" + type(e).__name__)
         dalv.append(_dalvik_single(mn, kind, dst, srcs, lit, regs))
-    # java: one class, one static method per sample; variable types = Dalvik operand types
-    lines = ["public class TT {",
-             "  static String show(int x) { return \"I\" + x; }",
-             "  static String show(long x) { return \"J\" + x; }",
-             "  static String show(boolean x) { return x ? \"taken\" : \"not-taken\"; }"]
-    first_line = {}
+    # java: one static method per sample; variable types = Dalvik operand types
+    exprs = []
     for i, (op, mn, dom, kind, dst, srcs, lit, raw, fmt_cls, regs) in enumerate(meta):
-        decl = []
         used = {"3": (2, 3), "2addr": (1, 2), "2": (2,), "lit": (2,), "b": (1, 2), "bz": (1,), "const": ()}[kind]
-        for k, t in zip(used, srcs if kind != "lit" else ["I"]):
-            decl.append("%s v%d = %s;" % (javagen.JT[t], k, javagen.java_literal(regs[(t, k)], t)))
-        first_line[len(lines) + 1] = i
-        lines.append("  static String e%d() { %s try { return show(%s); } catch (ArithmeticException x) { return \"AE\"; } }"
-                     % (i, " ".join(decl), texts[i]))
-    step = 400
-    for b in range(0, len(meta), step):
-        lines.append("  static void run%d(StringBuilder sb) {" % (b // step))
-        for i in range(b, min(b + step, len(meta))):
-            lines.append("    sb.append(\"%d \").append(e%d()).append('\\n');" % (i, i))
-        lines.append("  }")
-    lines.append("  public static void main(String[] a) { StringBuilder sb = new StringBuilder();")
-    for b in range(0, len(meta), step):
-        lines.append("    run%d(sb);" % (b // step))
-    lines.append("    System.out.print(sb); }")
-    lines.append("}")
-    java = ["?"] * len(meta)
-    todo_lines = list(lines)
-    for _round in range(4):
-        path = os.path.join(workdir, "TT.java")
-        with open(path, "w") as f:
-            f.write("\n".join(todo_lines) + "\n")
-        p = subprocess.run(["javac", "-nowarn", "-Xmaxerrs", "100000", "-d", workdir, path], capture_output=True, text=True, timeout=600)
-        if p.returncode == 0:
-            break
-        bad = set()
-        for mm in re.finditer(r"TT\.java:(\d+): error:", p.stderr):
-            ln = int(mm.group(1))
-            if ln in first_line:
-                bad.add(first_line[ln])
-        if not bad:
-            raise ToolFailure("javac failed on the per-instruction bench: " + p.stderr[-500:])
-        for i in bad:
-            java[i] = "rejected"
-            ln = [k for k, v in first_line.items() if v == i][0]
-            todo_lines[ln - 1] = "  static String e%d() { return \"rejected\"; }" % i
-    else:
-        raise ToolFailure("javac keeps failing on the per-instruction bench")
-    p = subprocess.run(["java", "-cp", workdir, "TT"], capture_output=True, text=True, timeout=600)
-    if p.returncode != 0:
-        raise ToolFailure("java failed on the per-instruction bench: " + p.stderr[-500:])
-    for line in p.stdout.split("\n"):
-        if line:
-            i, v = line.split(" ", 1)
-            java[int(i)] = v
+        decl = ["%s v%d = %s;" % (javagen.JT[t], k, javagen.java_literal(regs[(t, k)], t))
+                for k, t in zip(used, srcs if kind != "lit" else ["I"])]
+        exprs.append((" ".join(decl), texts[i]))
+    java = java_eval(workdir, "TT", exprs)
     real = ["text=%s | java=%s | dalvik=%s" % (texts[i], java[i], dalv[i]) for i in range(len(meta))]
     ck.compare("per-instruction text/java/dalvik", reqs, real, model)
     # S on the same samples: the real text, run by the real JVM, must agree with the independent interpreter
@@ -475,8 +640,17 @@ def leg_s(ck: Check, workdir):
             if r["status"] != "agree":
                 report(ck, r, m, tup[m["name"]], "corpus/" + c["file"])
         ck.cover(evaluations=len(ms), dist={"corpus_methods": len(ms)})
+    # 1b. every ASCII code once in a char-typed comparison, an int comparison and an addition
+    ms = ascii_sweep_methods()
+    tup = {m["name"]: [(k,) for k in sorted({int(m["name"][1:]), int(m["name"][1:]) + 1, int(m["name"][1:]) - 1, 0, 65, 92, 127, 65536 + int(m["name"][1:]), -1, 0x7FFFFFFF})] for m in ms}
+    recs = c21diff.run_batch(ms, "Ascii", tup, workdir=os.path.join(workdir, "ascii"), java_timeout=30)
+    for m, r in zip(ms, recs):
+        if r["status"] != "agree":
+            report(ck, r, m, tup[m["name"]], "ascii sweep")
+    ck.cover(evaluations=len(ms), dist={"ascii_sweep_methods": len(ms), "ascii_sweep_agree": sum(1 for r in recs if r["status"] == "agree")})
     # 2. generated
-    plan = [(0, 100), (1, 100), (2, 80)] if ck.quick else [(0, 1500), (1, 1500), (2, 1500)]
+    plan = [(0, 1500), (1, 1500), (2, 1500)] if not ck.quick else \
+        ([(0, 150), (1, 200), (2, 100)] if getattr(ck, "escalated", False) else [(0, 100), (1, 100), (2, 60)])
     batch = 100
     total = agree = 0
     featc = {}
@@ -508,6 +682,7 @@ def leg_s(ck: Check, workdir):
 
 
 def run(ck: Check):
+    ck.pins_changed(PINS)
     ck.run_gen("conds")
     ck.run_gen("translate")
     ck.prove(exes=["drv_C21"])
@@ -527,6 +702,7 @@ def run(ck: Check):
     try:
         drv = Driver("drv_C21")
         leg_t(ck, drv, workdir)
+        leg_t_contexts(ck, drv, workdir, full=not ck.quick, escalated=getattr(ck, "escalated", False))
         leg_s(ck, workdir)
     except javagen.BenchTimeout as e:
         raise ToolFailure("timeout in " + str(e))
